@@ -2,6 +2,7 @@ package gj5s
 
 import (
 	"fmt"
+	"sort"
 	"strings"
 
 	"google.golang.org/protobuf/types/descriptorpb"
@@ -59,15 +60,22 @@ type Decl struct {
 	Fields  []*Field // object fields / oneof options
 	Options []EnumOpt
 	Prefix  string // enum prefix override ("" = default)
+	Info    []InfoField // enum: declared info fields
 	ExplicitUnspecified bool
 
 	File   *File // set when the declaration is added to a file (top level)
 	Parent *Decl // enclosing declaration for inline types
 }
 
+type InfoField struct {
+	Name, Label, Desc string
+}
+
 type EnumOpt struct {
 	Name string
 	Desc string
+	// Info: values of the enum's info fields for this option (sorted by key when rendered)
+	Info map[string]string
 	// Number: explicit value number (hand-written proto enums only); 0 = position
 	Number int32
 }
@@ -441,10 +449,42 @@ func renderDeclBody(o *w, d *Decl) {
 		if d.Prefix != "" {
 			o.p("prefix = %q", d.Prefix)
 		}
+		for _, inf := range d.Info {
+			o.p("info {")
+			o.indent++
+			o.p("name = %q", inf.Name)
+			if inf.Label != "" {
+				o.p("label = %q", inf.Label)
+			}
+			if inf.Desc != "" {
+				o.p("description = %q", inf.Desc)
+			}
+			o.indent--
+			o.p("}")
+		}
 		if d.ExplicitUnspecified {
 			o.p("option UNSPECIFIED")
 		}
 		for _, opt := range d.Options {
+			if len(opt.Info) > 0 {
+				o.p("option %s {", opt.Name)
+				o.indent++
+				if opt.Desc != "" {
+					o.p("| %s", opt.Desc)
+					o.p("")
+				}
+				var keys []string
+				for k := range opt.Info {
+					keys = append(keys, k)
+				}
+				sort.Strings(keys)
+				for _, k := range keys {
+					o.p("info.%s = %q", k, opt.Info[k])
+				}
+				o.indent--
+				o.p("}")
+				continue
+			}
 			if opt.Desc != "" {
 				o.p("option %s | %s", opt.Name, opt.Desc)
 			} else {
